@@ -964,6 +964,346 @@ def run_fulltrace(inp):
     return {"req": req, "impl": impl, "oracle": None, "kind": "fulltrace-" + fn,
             "sig": f"full:{fn}:{L}:{d}:{ngauge}:{cap if fn == 'ldtdvp' else ''}", "nontrivial": ngauge > 0}
 
+# ----------------------------------------------------------------------------------------------- xb05: the BUG integrator
+# Extension xb05 (Props/C05.lean C05.23-C05.33, Model/Bug.lean): run the REAL `bug` with every function of bug.py wrapped in
+# `bug_mod`'s namespace (prepare_canonical_site_tensors, right_qr, left_qr, update_left/right_environment, update_site,
+# choose_stack_tensor, find_new_q, build_basis_change_tensor, local_update, copy, np.tensordot / np.concatenate via a proxy) and
+# both tensor lists (state.tensors, canon_tensors) replaced by logging lists.
+#   tied part : the full statement list (`fullbug L`, Model/Bug.lean `bugFull`) and the bonds before truncate (`bugbonds d | b…`)
+#   oracles   : per local_update — new_q right-isometric; left_qr spec (stack = r·new_q, upper block = the chosen stack tensor);
+#               R_{k-1}·M_k·new_q = centre tensor (hypothesis `SweepSpec`/conclusion `sweep_key` of bug_sweep_represents_old_state);
+#               M_k·new_q = A_k·M_{k+1} where R_{k-1} is well conditioned (bug_new_basis_contains_old); the dense OLD state equals
+#               the dense chain [A_0 … A_{k-2}, A_{k-1}·M_k, new_q_k …] (bug_sweep_represents_old_state); new bond <= 2·old;
+#               whole sweep — <psi|psi> and <psi|H|psi> before truncate equal the values at entry (bug_step_conserves_norm) where the
+#               Krylov exponential of the root update is converged (dt·|H| <= 8); after truncate every bond <= max_bond_dim.
+# tolerances >= 100x the clean-tree maxima (BUG_TOL; observed maxima over 1340 clean-tree cases, seeds 0..9, quoted).
+BUG_TOL = {
+    "iso": 1e-11,       # max|sum_s q q^H - 1|; observed 1.2e-15
+    "qr": 1e-11,        # max|stack - r·new_q| / (1 + max|stack|); observed 5.5e-16
+    "basis": 1e-10,     # max|R·M·new_q - centre| / (1 + max|centre|); observed 4.8e-16
+    "basis_direct": 1e-9,   # max|M·new_q - A·M_next| / (1 + max|A|) where cond(R) <= 1e4; observed 6.2e-16
+    "state": 1e-10,     # |psi_old - psi(new basis)| / |psi_old|; observed 1.9e-15
+    "norm": 1e-9,       # |N_before_truncate - N_entry| / N_entry; observed 3.0e-14
+    "energy": 1e-9,     # |E_before_truncate - E_entry| / ((1 + |H|) N_entry); observed 2.1e-14
+}
+
+
+class _TagList(list):
+    """a tensor list that records every item assignment with a tag"""
+
+    def __init__(self, items, log, tag):
+        super().__init__(items)
+        self._log, self._tag = log, tag
+
+    def __setitem__(self, k, v):
+        self._log.append((self._tag, k))
+        super().__setitem__(k, v)
+
+    def __reduce_ex__(self, protocol):  # copy.copy of the state's list must not carry the logger along
+        return (list, (list(self),))
+
+
+def run_bugfull(inp):
+    rng = random.Random(inp["sub"])
+    nprng = np.random.default_rng(inp["sub"])
+    L = inp.get("L") or rng.choice([1, 2, 2, 3, 3, 4, 4, 5, 6, 7])
+    digital = bool(inp.get("digital", rng.random() < 0.25))
+    dmax = inp.get("dmax") or rng.choice([1, 2, 3, 4, 4, 6, 8])
+    thr = rng.choice([1e-15, 1e-12, 1e-9, 1e-6])
+    dt = inp.get("dt") or rng.choice([0.01, 0.05, 0.1, 0.2, 0.4])
+    hk = inp.get("ham") or rng.choice(["asym", "asym", "pauli", "ising", "heis"])
+    if L == 1:
+        hk = "ising"
+    ham = asymmetric_pauli(rng, L) if hk == "asym" else random_hamiltonian(rng, L, hk)[1]
+    hmat = ham.to_matrix()
+    hn = float(np.linalg.norm(hmat, 2))
+    mps = random_mps(rng, nprng, L, dmax)
+    if inp.get("pad") and L >= 2:
+        # a built-in product state zero-padded to bond dimension `pad`: every R factor of prepare_canonical_site_tensors is rank
+        # deficient, so M_k·new_q = A_k·M_(k+1) is NOT implied — only the R-multiplied identity of `SweepSpec` and the state identity
+        mps = MPS(L, state=rng.choice(STATES), pad=int(inp["pad"]))
+    if inp.get("scale"):
+        mps.tensors[0] = mps.tensors[0] * float(inp["scale"])   # norm conservation is not about unit norm
+    bonds = [t.shape[2] for t in mps.tensors[:-1]]
+    maxb = max(bonds + [1])
+    cap = inp.get("cap") or rng.choice([maxb, maxb, 2 * maxb, 64, max(1, rng.randint(1, maxb))])
+    if digital:
+        sp = StrongSimParams([Observable(Z(), 0)], num_traj=1, max_bond_dim=cap, min_bond_dim=rng.choice([1, 2]), threshold=thr,
+                             show_progress=False)
+        unit = lambda: 1.0  # noqa: E731
+    else:
+        sp = analog_params(dt, cap, thr, mn=rng.choice([1, 2]))
+        unit = lambda: sp.dt  # noqa: E731
+    old = [np.array(t) for t in mps.tensors]
+    psi0 = dense_of(old)
+    n0, e0 = float(np.vdot(psi0, psi0).real), float(np.vdot(psi0, hmat @ psi0).real)
+    tr = Tracer(ham, unit)
+    ev = tr.events
+    mps.tensors = _TagList(mps.tensors, ev, "set")
+    ctx = {"prep": False, "site": None, "inbasis": False, "canon": None, "Rs": [], "lastq": None, "lastM": None, "stack": None,
+           "updated": None, "qr": None}
+    probs, worst = [], {k: 0.0 for k in BUG_TOL}
+    res = {"bonds_before_trunc": None, "N1": None, "E1": None}
+    names = ["prepare_canonical_site_tensors", "right_qr", "left_qr", "choose_stack_tensor", "find_new_q",
+             "build_basis_change_tensor", "local_update", "copy"]
+    o = {n: getattr(bug_mod, n) for n in names}
+    real_np = bug_mod.np
+
+    def idx_in(lst, x):
+        return next((k for k, t in enumerate(lst) if t is x), "?") if lst is not None else "?"
+
+    def copy_spy(x):
+        c = _TagList(list(x), ev, "cset")
+        ctx["canon"] = c
+        return c
+
+    def prepare_spy(state, mpo):
+        ctx["prep"] = True
+        try:
+            return o["prepare_canonical_site_tensors"](state, mpo)
+        finally:
+            ctx["prep"] = False
+
+    def right_qr_spy(t):
+        q, r = o["right_qr"](t)
+        ev.append(("pq", idx_in(ctx["canon"], t)))
+        ctx["Rs"].append(r)
+        m = q.reshape(-1, q.shape[2])
+        d = float(np.max(np.abs(m.conj().T @ m - np.eye(m.shape[1])))) if m.size else 0.0
+        worst["iso"] = max(worst["iso"], d)
+        if d > BUG_TOL["iso"]:
+            probs.append(f"right_qr inside prepare_canonical_site_tensors: Q not an isometry (defect {d:.2e})")
+        return q, r
+
+    def left_qr_spy(t):
+        q, r = o["left_qr"](t)
+        ctx["qr"] = (t, q, r)
+        return q, r
+
+    def choose_spy(site, canon, state):
+        out = o["choose_stack_tensor"](site, canon, state)
+        which = "L" if out is state.tensors[site] and (site >= len(canon) or out is not canon[site]) else "C" if out is canon[site] else "?"
+        ev.append(("k", site, which))
+        ctx["stack"] = out
+        return out
+
+    def find_spy(old_stack, updated):
+        ev.append(("n", ctx["site"], "" if (old_stack is ctx["stack"] and updated is ctx["updated"]) else "!args"))
+        q = o["find_new_q"](old_stack, updated)
+        ctx["lastq"] = q
+        return q
+
+    def basis_spy(old_q, new_q, old_m):
+        k = ctx["site"]
+        flag = ""
+        if not (isinstance(k, int) and old_q is ctx["old_state"][k]):
+            flag += "!old"
+        if new_q is not ctx["lastq"]:
+            flag += "!new"
+        if old_m is not ctx["m_in"]:
+            flag += "!m"
+        ev.append(("B", k, flag))
+        ctx["inbasis"] = True
+        try:
+            return o["build_basis_change_tensor"](old_q, new_q, old_m)
+        finally:
+            ctx["inbasis"] = False
+
+    def local_update_spy(state, mpo, left_blocks, right_block, canon, site, right_m_block, sim_params):
+        ctx["site"], ctx["m_in"] = site, right_m_block
+        ctx["old_state"] = list(state.tensors)
+        centre = canon[site]
+        a_k = state.tensors[site]
+        m_k, new_rb = o["local_update"](state, mpo, left_blocks, right_block, canon, site, right_m_block, sim_params)
+        ctx["site"] = None
+        nq = state.tensors[site]
+        tag = f"local_update(site={site})"
+        # 1. new_q right-isometric
+        mm = nq.transpose(1, 0, 2).reshape(nq.shape[1], -1)
+        d = float(np.max(np.abs(mm @ mm.conj().T - np.eye(mm.shape[0]))))
+        worst["iso"] = max(worst["iso"], d)
+        if d > BUG_TOL["iso"]:
+            probs.append(f"{tag}: new site tensor is not right-isometric (defect {d:.2e})")
+        # 2. spec of left_qr on the stack actually built, and the stack's upper block is the chosen stack tensor
+        if ctx["qr"] is not None:
+            stacked, q, r = ctx["qr"]
+            rec = np.einsum("ln,pnr->plr", r, q)
+            d = float(np.max(np.abs(rec - stacked))) / (1 + float(np.max(np.abs(stacked))))
+            worst["qr"] = max(worst["qr"], d)
+            if d > BUG_TOL["qr"]:
+                probs.append(f"{tag}: left_qr does not reproduce its input (defect {d:.2e})")
+            st = ctx["stack"]
+            if st is None or stacked.shape[1] != st.shape[1] + centre.shape[1] or not np.array_equal(stacked[:, :st.shape[1], :], st):
+                probs.append(f"{tag}: the tensor handed to left_qr is not [stack tensor ; updated tensor] along the left leg "
+                             f"(shape {stacked.shape}, stack {None if st is None else st.shape}, centre {centre.shape})")
+            ctx["qr"] = None
+        else:
+            probs.append(f"{tag}: find_new_q did not call left_qr")
+        # 3. the old tensor is reproduced from the new basis
+        r_prev = ctx["Rs"][site - 1] if site - 1 < len(ctx["Rs"]) else None
+        if r_prev is not None and r_prev.shape[1] == m_k.shape[0] and m_k.shape[1] == nq.shape[1]:
+            lhs = np.einsum("ab,bn,pnr->par", r_prev, m_k, nq)
+            d = float(np.max(np.abs(lhs - centre))) / (1 + float(np.max(np.abs(centre)))) if lhs.shape == centre.shape else float("inf")
+            worst["basis"] = max(worst["basis"], d) if np.isfinite(d) else worst["basis"]
+            if d > BUG_TOL["basis"]:
+                probs.append(f"{tag}: R_(k-1)·M_k·new_q differs from the centre tensor the update started from by {d:.2e} (shapes {lhs.shape} vs {centre.shape})")
+            cond = float(np.linalg.cond(r_prev)) if r_prev.shape[0] == r_prev.shape[1] else float("inf")
+            if cond <= 1e4:
+                am = np.einsum("plr,rn->pln", a_k, right_m_block)
+                mq = np.einsum("ln,pnr->plr", m_k, nq)
+                d = float(np.max(np.abs(am - mq))) / (1 + float(np.max(np.abs(a_k))))
+                worst["basis_direct"] = max(worst["basis_direct"], d)
+                if d > BUG_TOL["basis_direct"]:
+                    probs.append(f"{tag}: M_k·new_q differs from old tensor·M_(k+1) by {d:.2e} (cond R = {cond:.1e})")
+        else:
+            probs.append(f"{tag}: basis-change matrix of shape {m_k.shape} does not connect old bond {a_k.shape[1]} to new bond {nq.shape[1]}")
+        # 4. the OLD state, written in the new basis
+        try:
+            blocks = [np.array(t) for t in state.tensors]
+            blocks[site - 1] = np.einsum("plr,rn->pln", blocks[site - 1], m_k)
+            v = dense_of(blocks)
+            d = float(np.linalg.norm(v - psi0)) / max(float(np.linalg.norm(psi0)), 1e-300)
+        except ValueError as e:  # shapes do not chain
+            d = float("inf")
+        worst["state"] = max(worst["state"], d) if np.isfinite(d) else worst["state"]
+        if d > BUG_TOL["state"]:
+            probs.append(f"{tag}: the chain [A_0…A_(k-2), A_(k-1)·M_k, new_q_k…] differs from the state handed to bug by {d:.2e} (relative)")
+        # 5. rank augmentation
+        if nq.shape[1] > 2 * max(centre.shape[1], a_k.shape[1]):
+            probs.append(f"{tag}: left bond grew from {a_k.shape[1]} to {nq.shape[1]} (> 2x)")
+        return m_k, new_rb
+
+    def tensordot_spy(a, b, axes=2):
+        return real_np.tensordot(a, b, axes=axes)
+
+    orig_trunc = networks_mod.MPS.truncate
+
+    def truncate_spy(self_mps, threshold=1e-12, max_bond_dim=None):
+        res["bonds_before_trunc"] = [t.shape[2] for t in self_mps.tensors[:-1]]
+        try:
+            v = dense_of([np.array(t) for t in self_mps.tensors])
+            res["N1"], res["E1"] = float(np.vdot(v, v).real), float(np.vdot(v, hmat @ v).real)
+        except ValueError:
+            res["N1"] = res["E1"] = float("nan")
+        res["trunc_args"] = (float(threshold), max_bond_dim)
+        ev.append(("trunc",))
+        return orig_trunc(self_mps, threshold, max_bond_dim)
+
+    def us_spy_factory(inner):
+        def us(left_env, right_env, op, ket, dt_):
+            out = inner(left_env, right_env, op, ket, dt_)
+            ctx["updated"] = out
+            return out
+        return us
+
+    exc = None
+    try:
+        tr.install(tdvp_mod, TDVP_NAMES)
+        tr.install(bug_mod, BUG_NAMES)
+        traced_ule, traced_ure = bug_mod.update_left_environment, bug_mod.update_right_environment
+
+        def ule(ket, bra, op, env):
+            ev.append(("pe" if ctx["prep"] else "L?", tr.site_of(op), "" if ket is bra else "!ketbra"))
+            return traced_ule(ket, bra, op, env)
+
+        def ure(ket, bra, op, env):
+            ev.append(("r", tr.site_of(op), "" if (ket is bra and ket is ctx["lastq"]) else "!args"))
+            return traced_ure(ket, bra, op, env)
+
+        bug_mod.update_left_environment, bug_mod.update_right_environment = ule, ure
+        bug_mod.update_site = us_spy_factory(bug_mod.update_site)
+        bug_mod.prepare_canonical_site_tensors = prepare_spy
+        bug_mod.right_qr, bug_mod.left_qr = right_qr_spy, left_qr_spy
+        bug_mod.choose_stack_tensor, bug_mod.find_new_q = choose_spy, find_spy
+        bug_mod.build_basis_change_tensor, bug_mod.local_update = basis_spy, local_update_spy
+        bug_mod.copy = copy_spy
+        networks_mod.MPS.truncate = truncate_spy
+        try:
+            bug_mod.bug(mps, ham, sp)
+        except Exception as e:  # noqa: BLE001
+            import traceback as _tb
+
+            frames = _tb.extract_tb(e.__traceback__)
+            exc = f"{type(e).__name__}: {str(e)[:120]} at " + next((f"{f.filename.split('/')[-1]}:{f.lineno}" for f in reversed(frames)
+                                                                   if "/mqt/yaqs/" in f.filename), "?")
+    finally:
+        for n, f in o.items():
+            setattr(bug_mod, n, f)
+        networks_mod.MPS.truncate = orig_trunc
+        tr.restore()
+    # ---- the statement list
+    toks = []
+    for e in ev:
+        if e[0] == "pq":
+            toks.append(f"pq:{e[1]}")
+        elif e[0] == "cset":
+            toks.append(f"pc:{e[1] - 1}" if (isinstance(e[1], int) and not _after_prep(ev, e)) else f"P:{e[1] + 1 if isinstance(e[1], int) else '?'}")
+        elif e[0] == "pe":
+            toks.append(f"pe:{e[1]}{e[2]}")
+        elif e[0] == "L?":
+            toks.append(f"leftenv-outside-prepare:{e[1]}")
+        elif e[0] == "site":
+            toks.append(ops_text([e]))
+        elif e[0] == "k":
+            toks.append(f"k:{e[1]}:{e[2]}")
+        elif e[0] == "n":
+            toks.append(f"n:{e[1]}{e[2]}")
+        elif e[0] == "B":
+            toks.append(f"B:{e[1]}{e[2]}")
+        elif e[0] == "set":
+            toks.append("root" if e[1] == 0 else f"S:{e[1]}")
+        elif e[0] == "r":
+            toks.append(f"r:{e[1]}{e[2]}")
+        elif e[0] == "trunc":
+            toks.append("t")
+    impl = "err" if exc else " ".join(toks)
+    # ---- whole-call oracles
+    if exc:
+        probs.append(f"bug raised {exc}")
+    else:
+        if res["N1"] is None:
+            probs.append("bug returned without calling state.truncate")
+        else:
+            judged = float(unit()) * hn <= 8.0
+            dn = abs(res["N1"] - n0) / max(n0, 1e-300)
+            de = abs(res["E1"] - e0) / ((1 + hn) * max(n0, 1e-300))
+            if judged:
+                worst["norm"], worst["energy"] = max(worst["norm"], dn), max(worst["energy"], de)
+                if not dn <= BUG_TOL["norm"]:
+                    probs.append(f"<psi|psi> before truncate {res['N1']:.12f} != at entry {n0:.12f} (relative drift {dn:.2e})")
+                if not de <= BUG_TOL["energy"]:
+                    probs.append(f"<psi|H|psi> before truncate {res['E1']:.12f} != at entry {e0:.12f} (drift {de:.2e} of (1+|H|)N, |H|={hn:.2f})")
+            if res["trunc_args"] != (float(sp.threshold), sp.max_bond_dim):
+                probs.append(f"truncate called with {res['trunc_args']} instead of (threshold, max_bond_dim) = {(sp.threshold, sp.max_bond_dim)}")
+        after = [t.shape[2] for t in mps.tensors[:-1]]
+        if any(b > cap for b in after):
+            probs.append(f"bonds after bug {after} exceed max_bond_dim = {cap}")
+        for i, t in enumerate(mps.tensors):
+            if i + 1 < L and t.shape[2] != mps.tensors[i + 1].shape[1]:
+                probs.append(f"bug left an MPS whose bond {i} does not match ({t.shape} | {mps.tensors[i + 1].shape})")
+    detail = "; ".join(probs[:5]) or ("worst " + " ".join(f"{k}={v:.1e}" for k, v in worst.items()) +
+                                      f"; bonds {bonds} -> {res['bonds_before_trunc']} -> {[t.shape[2] for t in mps.tensors[:-1]]} (cap {cap})")
+    meta = {"worst": worst, "bonds": bonds, "cap": cap, "dt": float(unit()), "hn": hn, "thr": thr, "digital": digital}
+    out = [{"req": f"fullbug {L}", "impl": impl, "oracle": {"ok": not probs, "detail": detail}, "kind": "bug-step",
+            "sig": f"bugfull:{L}:{int(digital)}:{bonds}:{cap}:{hk}", "nontrivial": L >= 2 and maxb >= 2, "meta": meta}]
+    if not exc and res["bonds_before_trunc"] is not None:
+        out.append({"req": f"bugbonds 2 | {' '.join(map(str, bonds))}" if bonds else "bugbonds 2",
+                    "impl": " ".join(map(str, res["bonds_before_trunc"])) if bonds else "none", "oracle": None, "kind": "bug-bonds",
+                    "sig": f"bugbonds:{bonds}", "nontrivial": any(a != b for a, b in zip(bonds, res["bonds_before_trunc"]))})
+    return out
+
+
+def _after_prep(events, e):
+    """is the `cset` event `e` one of local_update (True) or of prepare_canonical_site_tensors (False)?  local_update's hand-over
+    comes after the first site update; prepare's assignments come before it"""
+    for x in events:
+        if x is e:
+            return False
+        if x[0] == "site":
+            return True
+    return False
+
+
 def gen(rng, tier):
     n_trace = {"quick": 300, "thorough": 3000, "search": 60}.get(tier, 300)
     n_dyn = {"quick": 40, "thorough": 400, "search": 60}.get(tier, 40)
@@ -973,6 +1313,15 @@ def gen(rng, tier):
         dyn.append({"kind": "dynamics", "mode": ["tdvp", "tdvp-mixed", "bug"][k % 3], "sub": rng.randrange(1 << 30)})
     head = 4 if tier != "search" else n_dyn
     yield from dyn[:head]
+    # xb05: the BUG integrator with every statement traced (every length once analog and once digital, then random)
+    for L in (1, 2, 3, 4, 5, 6, 7):
+        for dg in (False, True):
+            yield {"kind": "bugfull", "L": L, "digital": dg, "sub": rng.randrange(1 << 30)}
+    for L, pad in ((2, 2), (3, 2), (4, 4), (5, 2), (6, 4)):   # rank-deficient gauge matrices; a state of norm 3
+        yield {"kind": "bugfull", "L": L, "pad": pad, "digital": False, "sub": rng.randrange(1 << 30)}
+    yield {"kind": "bugfull", "L": 4, "scale": 3.0, "digital": False, "sub": rng.randrange(1 << 30)}
+    for k in range({"quick": 120, "thorough": 1500, "search": 150}.get(tier, 120)):
+        yield {"kind": "bugfull", "sub": rng.randrange(1 << 30)}
     # shortest chains with the cap exactly at the full bond dimension (no truncation possible, so the result must converge)
     for L, cap in ((2, 2), (2, 64), (3, 4)):
         yield {"kind": "dynamics", "mode": "tdvp", "L": L, "cap": cap, "ham": rng.choice(["ising", "heis"]),
@@ -1005,6 +1354,8 @@ def run(inp):
         return run_conserve(inp)
     if inp["kind"] == "fulltrace":
         return run_fulltrace(inp)
+    if inp["kind"] == "bugfull":  # xb05
+        return run_bugfull(inp)
     if inp["kind"] not in ("dynamics", "budget"):
         raise ValueError(inp["kind"])
     try:
@@ -1032,7 +1383,12 @@ if __name__ == "__main__":
                  "update_site / update_bond / split_mps_tensor wrapped: primitive list tied to the model; per primitive <psi|psi> and "
                  "<psi|H|psi> of the actual MPS (dense) before/after, dense H_eff Hermitian, x^H H_eff x = <psi|H|psi>, x^H x = <psi|psi>, "
                  "result = scipy expm(-i t H_eff) x, neighbours isometric, split drop = discarded weight <= threshold; tolerances "
-                 ">= 100x the clean-tree maxima over 6260 cases (CONS_TOL in the script)",
+                 ">= 100x the clean-tree maxima over 6260 cases (CONS_TOL in the script)"
+                 + ". bug-step / bug-bonds (xb05): the real bug on L=1..7, random right-canonical MPS (bonds 1..8), caps at, above and below the "
+                 "bonds, analog and digital parameter objects, every function of bug.py wrapped in its module namespace and both tensor lists "
+                 "logging: full statement list tied to Model/Bug.lean (fullbug), bonds before truncate tied to bugBonds; per local_update new_q "
+                 "right-isometric, left_qr spec, R·M·new_q = centre tensor, M·new_q = old·M_next (cond R <= 1e4), dense old state = chain in the new "
+                 "basis; whole sweep: norm and energy before truncate = at entry (dt·|H| <= 8), bonds after truncate <= cap (BUG_TOL in the script)",
             trusted_base=["numpy/scipy dense linear algebra (scipy.linalg.expm) in the oracles",
                           "cited, not formalised: a consistent palindromic one-step method has even order (Hairer-Lubich-Wanner II.3); "
                           "projector-splitting exactness (Lubich-Oseledets-Vandereycken 2015); BUG first-order bound (Ceruti-Lubich-Walach 2021)"],
